@@ -15,10 +15,10 @@ import (
 // captures which storages are shared (aliasing), which plain text
 // marshalling does not show.
 type serializer struct {
-	sb    strings.Builder
-	ids   map[any]int
-	marks map[any]string // extra per-container annotation (e.g. "!" = under a freeze obligation)
-	onPath map[any]bool  // messages being serialised (cycle guard)
+	sb     strings.Builder
+	ids    map[any]int
+	marks  map[any]string // extra per-container annotation (e.g. "!" = under a freeze obligation)
+	onPath map[any]bool   // messages being serialised (cycle guard)
 }
 
 func (s *serializer) ref(x any) bool {
